@@ -780,6 +780,32 @@ def _quotrem(ra, rb):
     return k, r
 
 
+def fmod(a, b):
+    """numpy.fmod / math.fmod (C semantics): x = b*k + r with k = trunc(x/b), so r has the sign of x; positive constant modulus"""
+    ca, cb = concrete(a), concrete(b)
+    if ca is not None and cb is not None:
+        return math.fmod(ca, cb)
+    ra, rb = real_expr(a), real_expr(b)
+    pos = cb is not None and cb > 0
+    if not pos:
+        co = _pi_coeff(rb)
+        pos = co is not None and co > 0
+    if not pos:
+        raise EngineLimit(f"fmod by {rb}: not a positive constant")
+    run = cur()
+    memo = run.__dict__.setdefault("memo", {})
+    key = ("fmodrem", ra.get_id(), rb.get_id())
+    if key not in memo:
+        k = run.fresh("kt", "int")
+        r = run.fresh("rt")
+        fact = [r == ra - rb * z3.ToReal(k), z3.If(ra >= 0, z3.And(r >= 0, r < rb), z3.And(r <= 0, r > -rb))]
+        run.add_def(r, *fact)
+        run.add_def(k, *fact)
+        memo[key] = (ra, rb, k, r)
+        run._keep.append((r, k))
+    return SReal(memo[key][3])
+
+
 def mod(a, b):
     ea, ia = lift(a)
     eb, ib = lift(b)
